@@ -407,7 +407,7 @@ def declared_np(cell, d):
 
 def make_context(cell, path):
     st = strax.Context(storage=[strax.DataDirectory(path)], register=[], config={},
-                       timeout=cell.get("timeout", 90), allow_lazy=cell.get("lazy", True), allow_multiprocess=False)
+                       timeout=cell.get("timeout", 60), allow_lazy=cell.get("lazy", True), allow_multiprocess=False)
     if cell["kind"] == "source":
         st.register(make_source(cell, True))
     else:
